@@ -16,7 +16,7 @@ HARNESS = os.path.dirname(HERE)
 ROOT = os.path.dirname(HARNESS)
 REPLAYS = os.path.join(ROOT, "replays")
 TARGETS = {"C02": ["hist"], "C03": ["transforms"], "C04": ["canon"], "C05": ["witness"], "C06": ["decomp"], "C07": ["bdd"], "C10": ["histdiff"], "C09": ["hex"], "C12": ["cubeops"], "C14": ["sopexpr"], "C16": ["sopdisplay"]}
-RUNS = {"transforms": 1_500_000, "canon": 600_000, "witness": 600_000, "decomp": 2_000_000, "bdd": 1_500_000, "hist": 1_500_000, "histdiff": 1_000_000, "hex": 4_000_000, "cubeops": 3_000_000, "sopexpr": 1_000_000, "sopdisplay": 1_000_000}
+RUNS = {"transforms": 4_000_000, "canon": 1_500_000, "witness": 1_500_000, "decomp": 6_000_000, "bdd": 4_000_000, "hist": 4_000_000, "histdiff": 3_000_000, "hex": 12_000_000, "cubeops": 9_000_000, "sopexpr": 3_000_000, "sopdisplay": 3_000_000}
 PROCS = 8
 ENV = dict(os.environ, CARGO_NET_OFFLINE="true")
 
